@@ -1237,3 +1237,26 @@ def _m95():
     out = _real_out
     out.write_literal(name.name + ' := ')
 """)
+
+
+@mutant('env_upgrade_initial_or_current')
+def _m96():
+    # Environment.load: v13 leaves initial_variables unset and v15 falls back with `or`
+    from bfg9000 import environment as benv
+    _patch_source(benv.Environment, 'load', "            'initial': data.pop('initial_variables'),",
+                  "            'initial': data.pop('initial_variables') or data['variables'],")
+
+
+@mutant('string_appends_suffix')
+def _m97():
+    # BasePath.string: suffixes of nested roots are appended instead of prepended
+    from bfg9000.platforms import basepath as bb
+    _patch_source(bb.BasePath, 'string', "result = suffix + result", "result += suffix")
+
+
+@mutant('static_forwards_static_only')
+def _m98():
+    # StaticLink._fill_output forwards only static libraries
+    from bfg9000.builtins import link as bl
+    _patch_source(bl.StaticLink, '_fill_output', "libs=self.user_libs,",
+                  "libs=[i for i in self.user_libs if isinstance(i, StaticLibrary)],")
